@@ -1,4 +1,48 @@
+"""C14: a restarted node is indistinguishable from one that never stopped. spec/NodeOps.tla (+ twin node) for data, schema
+and index state; spec/ReplConfig.tla for the replicator configuration, replayed on real libp2p peers."""
+import json, os
+import vlib
 from checks import node_common as nc
+
+RC = """SPECIFICATION Spec
+CONSTANTS Peers = {{"B","C"}} Cols = {{"User","Book"}} MaxDocs = {docs} MaxSteps = {steps}
+{body}
+CHECK_DEADLOCK FALSE
+"""
+
+def repl_config(run, replay, thorough):
+    binary = run.build("replcfgrun")
+    out = os.path.join(run.tmp, "replcfg.json")
+    if replay:
+        src = replay
+    else:
+        run.tlc("ReplConfig.tla", "mc_rc.cfg", workers=4, timeout=600,
+                cfg_text=RC.format(docs=3, steps=7 if thorough else 6, body="VIEW view\nINVARIANTS OnlyConfigured\nPROPERTIES RestartInvisible"), label="MC_ReplConfig")
+        src = os.path.join(run.tmp, "replcfg.ndjson")
+        run.tlc("ReplConfig_gen.tla", "gen_rc.cfg", mode="simulate", workers=1, sim="num=%d" % (150 if thorough else 40), extra=["-depth", "7"], timeout=600,
+                env={"VERIF_OUT": src}, cfg_text=RC.format(docs=4, steps=7, body="ACTION_CONSTRAINT ExportInteresting"), label="GEN_ReplConfig")
+        if not os.path.exists(src):
+            raise vlib.Infra("no replicator-configuration behaviours exported")
+    run.run_driver(binary, ["-beh", src, "-out", out] + ([] if replay else ["-budget", "900s" if thorough else "60s"]), timeout=4000)
+    r = json.load(open(out))
+    if r.get("harness_errors"):
+        raise vlib.Infra("replcfgrun: " + r["harness_errors"][0])
+    return r
+
 def check(run, replay):
-    mine, cov = nc.check(run, replay, "C14")
+    thorough = run.tier == "thorough"
+    is_rc = False
+    if replay:
+        try:
+            is_rc = "cfg" in json.dumps(json.load(open(replay)).get("behaviour_data", [{}])[0].get("obs", {}))
+        except Exception:
+            is_rc = False
+    mine, cov = ([], {"traces_validated_against_impl": 0, "samples": [["replay"]]}) if is_rc else nc.check(run, replay, "C14")
+    if not replay or is_rc:
+        r = repl_config(run, replay if is_rc else None, thorough)
+        mine += r.get("violations") or []
+        cov["traces_validated_against_impl"] += r["behaviours"]
+        cov["replicator_config_behaviours"] = r["behaviours"]
+        cov["replicator_config_restarts"] = r["restarts"]
+        cov["rule"] = cov.get("rule", "") + " | ReplConfig.tla: SetReplicator / DeleteReplicator per peer and collection, writes, Restart at any position, replayed on three real libp2p peers: after every step GetAllReplicators equals the specification's configuration, every peer receives the documents it is owed within 12 s and holds no document of a collection never replicated to it"
     run.finish("model_checking", mine, cov, nc.ASSUME)
